@@ -909,6 +909,9 @@ func evalPlaceholder(ctx context.Context, scope *ReferenceScope, expr parser.Pla
 			return nil, NewStatementReplaceValueNotSpecifiedError(expr)
 		}
 	}
+	if replace.Outer != nil {
+		return Evaluate(replace.Outer, scope, replace.Values[idx])
+	}
 	return Evaluate(ctx, scope, replace.Values[idx])
 }
 
